@@ -17,8 +17,11 @@ PROP = dict(
         trusted=['mapFn is scripted by the harness (C04 covers Map itself)'],
         assumptions=['sequential use (early boot is single-threaded)'],
         level_text='Lean theorems over BitVec 64 (fits_iff, reserve_ok, reserve_fail_pure, disjoint_history, no_overlap, '
-                   'region_maps_exact_pages) hold for every cursor, size and request history; the model is tied to the Go code '
-                   'by regenerated constants and a differential run of EarlyReserveRegion/MapRegion/IdentityMapRegion.',
+                   'region_maps_exact_pages, region_fail_pure, gort_reserve_ok, gort_map_never_writable) hold for every cursor, size and request '
+                   'history; single_cursor_writer (regenerated AST fact: only EarlyReserveRegion writes the cursor). The model is tied to the Go '
+                   'code by regenerated constants, 12 tie lemmas over regenerated expressions (tools/exprgen) and differential runs of '
+                   'EarlyReserveRegion/MapRegion/IdentityMapRegion, of reservation histories across the real setupPDTForKernel, of the '
+                   'bitmap allocator as a client and of a verbatim source copy of the goruntime hooks.',
         level_note='Trusted: Lean kernel (+ propext, Classical.choice, Quot.sound), the theorem statements, the harness '
                    '(correspondence is differential testing on generated inputs, not a proof about the Go code), mapFn scripted.',
 )
